@@ -1,9 +1,15 @@
 import json,sys
 pid=sys.argv[1]
+rnd=sys.argv[2] if len(sys.argv)>2 else ""          # "2" for a second round: worktree seed2-<id>, avoid list
+import glob,os
+avoid=[]
+if rnd:
+    for d in sorted(glob.glob('/verif/seeded/%s-m*'%pid)):
+        avoid.append(open(d+'/README.md').readline().lstrip('# ').strip())
 for l in open('/verif/properties.jsonl'):
     p=json.loads(l)
     if p['id']==pid: break
-wt=f"/tmp/wt/seed-{pid}"
+wt=f"/tmp/wt/seed{rnd}-{pid}"
 print(f"""You are helping test a verification tool by writing realistic *seeded defects* for a Rust library. Work ONLY inside the scratch git worktree {wt} (a checkout of google/omaha-client: Rust client library for Google's Omaha update protocol; crates omaha-client and mock-omaha-server). Do not read or write anything under /verif or /repo. The sandbox is offline: always use `cargo ... --offline` and set CARGO_NET_OFFLINE=true; use `-j 6` to limit parallelism.
 
 The library is supposed to satisfy this semantic property:
@@ -22,3 +28,7 @@ For each change k in (m1, m2) create the directory {wt}/mutations/<k>/ containin
   - README.md  : what was changed, which clause of the property it breaks, what it needs in order to manifest, and the exact demo command (e.g. `cargo test -p omaha_client --offline -j 6 --lib <filter>`).
 
 Verify all of this yourself before finishing: (1) with patch.diff applied the full suite passes; (2) with patch.diff + demo.diff the demo command fails; (3) with demo.diff alone on clean HEAD the demo command passes. Leave the worktree clean (git checkout -- . ; remove untracked files except the mutations/ directory; you may leave target/). Reuse the same target directory for all builds to save disk and time. Report back briefly: for each change, one paragraph on what it is and the demo command.""")
+if avoid:
+    print("\nEarlier volunteers already tried the following ideas; come up with DIFFERENT ones (different clause of the property, different code site, or a different kind of trigger - e.g. concurrency / ordering of simultaneously ready futures, restart after a crash, boundary values, rarely used configuration, interaction of two features):")
+    for a in avoid: print("  - "+a)
+
